@@ -306,17 +306,19 @@ def emitCmp (op : Cmp) : Res PyCmp :=
 def parenUnless (tbl : List Kind) (child : Expr) (x : PyExpr) : PyExpr :=
   if child.kind ∈ tbl then x else .paren x
 
+/-- `str(value)` of a non-negative float: `nan` comes out as a bare name (`inf` is emitted as
+`math.inf`, which denotes the float) -/
+def floatAtom (t : Text) : PyExpr :=
+  if t = [110, 97, 110] then .var t else .float t
+
 def transpileConst : Const → PyExpr
   | .bool true => .tru
   | .bool false => .fls
   | .int i => if i < 0 then .neg (.int i.natAbs) else .int i.natAbs
   | .float r =>
-    -- `str(value)`: `inf` / `nan` come out as bare names
-    let body (t : Text) : PyExpr :=
-      if t = [105, 110, 102] ∨ t = [110, 97, 110] then .var t else .float t
     match r with
-    | 45 :: t => .neg (body t)
-    | t => body t
+    | 45 :: t => .neg (floatAtom t)
+    | t => floatAtom t
   | .str s => .str s
 
 /-- does the emitted code contain a line break (only the structural ones are modelled) -/
@@ -336,8 +338,13 @@ def litsOf : List JPart → Text
   | .lit s :: ps => s ++ litsOf ps
   | .fv _ :: ps => litsOf ps
 
+/-- does `variable_name(x)` (lower snake case) give `that`, the name of the instance in the
+generated code — the generator reports an error for such a generator variable -/
+def isThat (x : Text) : Bool :=
+  x.map (fun c => if 65 ≤ c ∧ c ≤ 90 then c + 32 else c) == [116, 104, 97, 116]
+
 def transpileName (cfg : Cfg) (vs : List Text) (x : Text) : Res PyExpr :=
-  if x ∈ vs then .ok (.var x)
+  if x ∈ vs then (if isThat x then .err else .ok (.var x))
   else if x = selfName then .ok .that
   else match cfg.nameKind x with
     | some .const => .ok (.constRef x)
